@@ -182,7 +182,13 @@ def check(prog, run):
         shapes.require(bool(absent), "C14.M2: no execution of the `%s` loop enters a KeyError handler" % kind)
         stores_when_absent = all(any(isinstance(x, ast.Assign) and any(isinstance(t, ast.Subscript) and ast.unparse(t.value) == "self.%s" % kind for t in x.targets)
                                      for x in env.get(boolx.STMTS, ())) for env in absent)
-        kw = [k.value for k in ctor[0].keywords if k.arg == kind]
+        from ..canon import Canon as _Canon
+        kw = [_Canon(clone.node).expr(k.value) for k in ctor[0].keywords if k.arg == kind]      # a local named first stands for its value
+        for i_, v_ in enumerate(kw):
+            if isinstance(v_, ast.Name):
+                defs_ = [x.value for x in own_nodes(clone.node) if isinstance(x, ast.Assign) and len(x.targets) == 1 and isinstance(x.targets[0], ast.Name) and x.targets[0].id == v_.id]
+                if len(defs_) == 1:
+                    kw[i_] = defs_[0]
         seeded = bool(kw) and any(isinstance(x, ast.Attribute) and x.attr == kind and isinstance(x.value, ast.Name) and x.value.id == "self" for x in ast.walk(kw[0]))
         r2.instance("%s: replacement stores unregistered names: %s; clone constructed with self.%s: %s" % (kind, stores_when_absent, kind, seeded))
         if not (stores_when_absent or seeded):
